@@ -86,6 +86,12 @@ Theorem C01_wavelet_2d : forall (R : StarRing) level L n1 n2 (flo fhi glo ghi : 
 Proof. exact wavedec2_adjoint. Qed.
 Print Assumptions C01_wavelet_2d.
 
+(* three dimensions (wavedec3 / waverec3 on a row-major (n1, n2, n3) volume; bands aaa, aad, ada, add, daa, dad, dda, ddd per level) *)
+Theorem C01_wavelet_3d : forall (R : StarRing) level L n1 n2 n3 (flo fhi glo ghi : nat -> R),
+  filters_match L flo glo -> filters_match L fhi ghi -> adjoint_pair (wavedec3_op level L n1 n2 n3 flo fhi glo ghi).
+Proof. exact wavedec3_adjoint. Qed.
+Print Assumptions C01_wavelet_3d.
+
 (* ... and only then: for signals of length >= 2 one level is an adjoint pair iff both filter pairs match. This decides
    known finding KF-01 for every wavelet from its filter bank alone: bior/rbio (other than 1.1) have rec <> reversed dec. *)
 Theorem C01_wavelet_adjoint_iff : forall (R : StarRing) L n (flo fhi glo ghi : nat -> R), (2 <= n)%nat ->
